@@ -164,6 +164,128 @@ Proof.
 Qed.
 End P.
 
+(* ---------- liveness of the reader: once the child has closed its pipe the reader returns after finitely many
+   polls, whatever ticks and late events are interleaved - so the hypothesis [ended s = true] of [reader_exact]
+   is met by every run that polls often enough ---------- *)
+Section Live.
+Variable tolerant : bool.
+Variable sink_ok : nat -> bool.
+Notation step := (step true tolerant sink_ok).
+
+Definition mu (s : rst) : nat :=
+  if ended s then 0
+  else match inner s, nread s with
+       | [], 0 => 1
+       | _, _ => 2 + length (inner s)
+       end.
+
+Fixpoint polls (es : list ev) : nat :=
+  match es with [] => 0 | Poll :: r => S (polls r) | _ :: r => polls r end.
+
+Lemma take_line_shorter s : forall acc l rest, take_line acc s = Some (l, rest) -> length rest < length s.
+Proof.
+  induction s as [|c s IH]; intros acc l rest H; simpl in H; [discriminate|].
+  destruct (N.eqb c nl).
+  - inversion H; subst. simpl. lia.
+  - apply IH in H. simpl. lia.
+Qed.
+
+Lemma take_line_nil acc : take_line acc [] = None.
+Proof. reflexivity. Qed.
+
+Lemma flush_true_ended s : ended (flush tolerant sink_ok s true) = true.
+Proof. rewrite flush_ended_failed. reflexivity. Qed.
+
+Lemma mu_flush_fields s fin :
+  inner (flush tolerant sink_ok s fin) = inner s /\ closed (flush tolerant sink_ok s fin) = closed s /\
+  nread (flush tolerant sink_ok s fin) = nread s.
+Proof.
+  unfold Reader.flush. destruct (lines s); simpl; auto.
+  destruct (stream_on s); [destruct (sink_ok (nwrites s)); [|destruct tolerant]|]; simpl; auto.
+Qed.
+
+Lemma step_closed s e : closed s = true -> closed (step s e) = true.
+Proof.
+  intros Hc. unfold Reader.step. destruct (ended s) eqn:Ee; [exact Hc|].
+  destruct e as [b| | |].
+  - rewrite Hc. exact Hc.
+  - reflexivity.
+  - destruct (take_line [] (inner s)) as [[l rest]|]; [exact Hc|]. rewrite Hc.
+    destruct (inner s); [destruct (nread s)|]; try reflexivity.
+    destruct (mu_flush_fields (with_io s [] true [] 0 (match cur s with [] => lines s | _ => lines s ++ [cur s] end)) true) as (_ & H & _).
+    rewrite H. reflexivity.
+  - destruct (mu_flush_fields s false) as (_ & H & _).
+    destruct (ended (flush tolerant sink_ok s false)); [rewrite H; exact Hc|]. simpl. rewrite H. exact Hc.
+Qed.
+
+Lemma mu_step_le s e : closed s = true -> mu (step s e) <= mu s.
+Proof.
+  intros Hc. unfold Reader.step. destruct (ended s) eqn:Ee; [lia|].
+  destruct e as [b| | |].
+  - rewrite Hc. lia.
+  - unfold mu. simpl. rewrite Ee. lia.
+  - destruct (take_line [] (inner s)) as [[l rest]|] eqn:Et.
+    + apply take_line_shorter in Et. unfold mu. simpl. rewrite Ee.
+      destruct rest; destruct (inner s); simpl in *; try lia; destruct (nread s); lia.
+    + rewrite Hc. unfold mu at 2. rewrite Ee.
+      destruct (inner s) as [|c r]; [destruct (nread s) as [|k]|].
+      * unfold mu. rewrite flush_true_ended. lia.
+      * unfold mu. simpl. lia.
+      * unfold mu. simpl. lia.
+  - destruct (mu_flush_fields s false) as (Hi & _ & Hn).
+    destruct (ended (flush tolerant sink_ok s false)) eqn:Ef.
+    + unfold mu. rewrite Ef. lia.
+    + unfold mu. simpl. rewrite Ee, Hi. destruct (inner s); [destruct (nread s)|]; simpl; lia.
+Qed.
+
+Lemma mu_poll_lt s : closed s = true -> ended s = false -> mu (step s Poll) < mu s.
+Proof.
+  intros Hc Ee. unfold Reader.step. rewrite Ee.
+  destruct (take_line [] (inner s)) as [[l rest]|] eqn:Et.
+  - apply take_line_shorter in Et. unfold mu. simpl. rewrite Ee.
+    destruct rest; destruct (inner s); simpl in *; try lia; destruct (nread s); lia.
+  - rewrite Hc. unfold mu at 2. rewrite Ee.
+    destruct (inner s) as [|c r]; [destruct (nread s) as [|k]|].
+    + unfold mu. rewrite flush_true_ended. lia.
+    + unfold mu. simpl. lia.
+    + unfold mu. simpl. lia.
+Qed.
+
+Lemma mu_zero s : mu s = 0 -> ended s = true.
+Proof. unfold mu. destruct (ended s); auto. destruct (inner s); [destruct (nread s)|]; discriminate. Qed.
+
+Lemma polls_end es : forall s, closed s = true -> mu s <= polls es -> ended (fold_left step es s) = true.
+Proof.
+  induction es as [|e es IH]; intros s Hc Hm.
+  - simpl. apply mu_zero. simpl in Hm. lia.
+  - destruct (ended s) eqn:Ee.
+    + rewrite (ended_frozen tolerant sink_ok (e :: es) s Ee). exact Ee.
+    + cbn [fold_left]. apply IH; [apply step_closed; exact Hc|].
+      destruct e as [b| | |]; simpl in Hm; try (pose proof (mu_step_le s (Arrive b) Hc); lia);
+        try (pose proof (mu_step_le s Close Hc); lia); try (pose proof (mu_step_le s Tick Hc); lia).
+      pose proof (mu_poll_lt s Hc Ee). lia.
+Qed.
+
+Lemma mu_bound s : mu s <= 2 + length (inner s).
+Proof. unfold mu. destruct (ended s); [lia|]. destruct (inner s); [destruct (nread s)|]; simpl; lia. Qed.
+
+(* after the Close event: any continuation that polls at least (bytes still in the pipe + 2) times ends the reader *)
+Theorem reader_terminates stream es es' :
+  let s := run true tolerant sink_ok stream (es ++ [Close]) in
+  2 + length (inner s) <= polls es' ->
+  ended (run true tolerant sink_ok stream (es ++ Close :: es')) = true.
+Proof.
+  intros s Hp. subst s. unfold run in *. rewrite fold_left_app in *. cbn [fold_left] in *.
+  set (s0 := fold_left step es (init stream)) in *.
+  destruct (ended s0) eqn:Ee.
+  - assert (E : step s0 Close = s0) by (unfold Reader.step; rewrite Ee; reflexivity).
+    rewrite E. rewrite (ended_frozen tolerant sink_ok es' s0 Ee). exact Ee.
+  - apply polls_end.
+    + unfold Reader.step. rewrite Ee. reflexivity.
+    + pose proof (mu_bound (step s0 Close)). lia.
+Qed.
+End Live.
+
 (* ---------- C15: with the tolerant reader the stream never influences what is stored or how the task ends ---------- *)
 Definition core_eq (a b : rst) : Prop :=
   inner a = inner b /\ closed a = closed b /\ cur a = cur b /\ nread a = nread b /\ lines a = lines b /\
